@@ -2,6 +2,7 @@ package main
 
 import (
 	"fmt"
+	"go/constant"
 	"go/token"
 	"go/types"
 	"strings"
@@ -356,6 +357,8 @@ func checkC07(w *World, r *Report) {
 	// locks know no context: whoever waits for a lock waits as long as its holder pleases.  So nothing that can take
 	// long - a call back into the evaluator, a channel operation, a sleep - happens while a lock is held, anywhere
 	// in the library
+	readerEnvRule(w, r, "C07.reader-env")
+	tryShareRule(w, r, e, "C07.try-share")
 	r.rule("C07.lock-scope", "no mutex of the library is held across a call that can reach the evaluator, a blocking select, a channel receive or send, or time.Sleep: a second evaluation waiting for that lock cannot be cancelled")
 	nls := 0
 	for _, fn := range w.Funcs {
@@ -564,4 +567,120 @@ func ctxDeriveRule(w *World, r *Report, e *Engine, m *evalModel, rule string, on
 		}
 	}
 	return nd
+}
+
+// readerEnvRule: the reader calls the constructor functions it finds in the environment it is given under a
+// context of its own (it has none to pass on); that is only data construction as long as the environment is
+// the host's. No builtin hands the reader the environment programs define names in.
+func readerEnvRule(w *World, r *Report, rule string) {
+	r.rule(rule, "no function of the library packages (the builtins) passes an environment to reader.Read_str: the reader applies the constructors it looks up there under context.Background(), so with the program's own environment any lisp or context-taking function could be run beyond the reach of the caller's deadline (the exemption of the reader in C07.derive rests on this)")
+	rs := w.Fn("reader", "Read_str")
+	if rs == nil {
+		r.undecided(rule, nil, "reader.Read_str", token.NoPos, "function no longer resolves")
+		return
+	}
+	n := 0
+	for _, fn := range w.Funcs {
+		if isTestFunc(w, fn) || !strings.HasPrefix(fnPkgPath(fn), modPath+"/lib/") {
+			continue
+		}
+		for _, c := range staticCallsTo(fn, rs) {
+			n++
+			last := c.Call.Args[len(c.Call.Args)-1]
+			r.check(isNilConst(last), rule, fn, "environment handed to the reader by a builtin", c.Pos(), "none", "a builtin reads text with an environment ("+describeVal(nil, last, 0)+"): the «…» constructors named in the text are looked up there and applied under context.Background(), outside the caller's deadline and cancellation")
+		}
+	}
+	r.floor(rule, "calls of Read_str from the builtins", n, 1)
+}
+
+// tryShareRule: the body of try gets a fixed fraction of the time that is left, so that something is always
+// left for the handler: the duration handed to context.WithTimeout in the try runner is computed from
+// time.Until(deadline) by multiplication and division with constants, and by nothing else.
+func tryShareRule(w *World, r *Report, e *Engine, rule string) {
+	r.rule(rule, "the time share of a try body is a constant fraction (< 1) of time.Until(deadline) on every path: no minimum, no other source, no condition decides whether the share applies (otherwise the body can use up the whole remaining time and the handler - which the property says still gets to run - starts with an expired context)")
+	m := newEvalModel(w, e)
+	if !m.ok {
+		r.undecided(rule, nil, "evaluator model", token.NoPos, m.why)
+		return
+	}
+	var isShare func(v ssa.Value, depth int) (bool, float64)
+	isShare = func(v ssa.Value, depth int) (bool, float64) {
+		if depth > 6 {
+			return false, 0
+		}
+		switch x := v.(type) {
+		case *ssa.Call:
+			if sc := x.Call.StaticCallee(); sc != nil && sc.Name() == "Until" && sc.Object() != nil && sc.Object().Pkg() != nil && sc.Object().Pkg().Path() == "time" {
+				return true, 1
+			}
+		case *ssa.BinOp:
+			k, isK := x.Y.(*ssa.Const)
+			if !isK || k.Value == nil || k.Value.Kind() != constant.Int || k.Int64() <= 0 {
+				return false, 0
+			}
+			ok, f := isShare(x.X, depth+1)
+			if !ok {
+				return false, 0
+			}
+			switch x.Op {
+			case token.MUL:
+				return true, f * float64(k.Int64())
+			case token.QUO:
+				return true, f / float64(k.Int64())
+			}
+		case *ssa.ChangeType:
+			return isShare(x.X, depth+1)
+		case *ssa.Convert:
+			return isShare(x.X, depth+1)
+		}
+		return false, 0
+	}
+	n := 0
+	for _, b := range m.regionBlocks("try") {
+		_ = b
+	}
+	seen := map[*ssa.Function]bool{}
+	var fns []*ssa.Function
+	for _, b := range m.regionBlocks("try") {
+		for _, in := range b.Instrs {
+			if mc, ok := in.(*ssa.MakeClosure); ok {
+				fns = append(fns, mc.Fn.(*ssa.Function))
+			}
+		}
+		fns = append(fns, b.Parent())
+	}
+	for _, fn := range fns {
+		if seen[fn] {
+			continue
+		}
+		seen[fn] = true
+		for _, b := range fn.Blocks {
+			if fn == m.EVAL && !m.regions["try"][b] {
+				continue
+			}
+			for _, in := range b.Instrs {
+				c, ok := in.(*ssa.Call)
+				if !ok || c.Call.StaticCallee() == nil || c.Call.StaticCallee().Name() != "WithTimeout" || len(c.Call.Args) != 2 {
+					continue
+				}
+				n++
+				ok2, f := isShare(c.Call.Args[1], 0)
+				r.check(ok2 && f < 1, rule, fn, "time share of the try body", c.Pos(), fmt.Sprintf("%.2f of the remaining time", f), "the body's timeout is not a constant fraction below 1 of time.Until(deadline) ("+describeVal(e, c.Call.Args[1], 0)+"): with little time left the body may run to the very deadline, and the handler that the timeout raised inside try should reach cannot run")
+				// the share applies whenever there is a deadline: the only conditions above it test Deadline()'s ok
+				for _, a := range knownConds(b) {
+					okCond := false
+					if ex, ok := a.v.(*ssa.Extract); ok && ex.Index == 1 {
+						if dc, ok := ex.Tuple.(*ssa.Call); ok && dc.Call.IsInvoke() && dc.Call.Method.Name() == "Deadline" {
+							okCond = true
+						}
+					}
+					if fn == m.EVAL {
+						okCond = true // dispatch and clause tests of the region
+					}
+					r.check(okCond, rule, fn, "condition on applying the share", c.Pos(), "only: the context has a deadline", "whether the body's share applies also depends on "+describeVal(e, a.v, 0)+": on the other path the body may use all the time there is")
+				}
+			}
+		}
+	}
+	r.floor(rule, "time shares given to try bodies", n, 1)
 }
